@@ -423,8 +423,12 @@ impl<T: RealNumber> DecisionTreeRegressor<T> {
                     || gain > self.nodes[visitor.node].split_score.unwrap()
                 {
                     self.nodes[visitor.node].split_feature = j;
-                    self.nodes[visitor.node].split_value =
-                        Option::Some((visitor.x.get(*i, j) + prevx) / T::two());
+                    let mut cut = (visitor.x.get(*i, j) + prevx) / T::two();
+                    if cut >= visitor.x.get(*i, j) {
+                        // the midpoint of two adjacent floats may round to the upper one
+                        cut = prevx;
+                    }
+                    self.nodes[visitor.node].split_value = Option::Some(cut);
                     self.nodes[visitor.node].split_score = Option::Some(gain);
                     visitor.true_child_output = true_mean;
                     visitor.false_child_output = false_mean;
